@@ -47,9 +47,12 @@ CHECK = {
            'Long formats: well-formed formats of total length 2^12, 2^16, 2^18, 2^20, 2^21 (thorough also 2^23+4096) with %07d at the very start, %% in the middle, %s at the very end and '
            'literal text between, to a String and a File, on the main thread and from a pthread with a 256 KiB stack, each case in a forked child; length, returned position, checksum and '
            'first differing byte against snprintf, and the format and expected text must be intact afterwards. '
+           'Format buffer reuse: every ordered sequence of 2..4 pieces over {"ab", ", ", "%d", "%$", "%s=", "%%", "x%5.2fy", ""} (4672 sequences) with matching arguments, the formats written one after '
+           'the other into one static char buffer / a malloc block freed and re-malloced between calls / two alternating buffers, each piece appended at the returned position, both sinks, two starts; '
+           'expected text is the concatenation of snprintf of the pieces. '
            'distinct_nontrivial = (specification, value) pairs whose C output differs from the output of the bare conversion '
            '(flags, width or precision change the text) + non-empty %$ scalar texts + container shapes with >= 2 elements + '
-           'too-few-argument cases in which an argument had already been consumed when FormatError was raised + ladder (form, N) pairs with N >= 64 + argument sequences in which an object recurs and its second occurrence is followed by something other than what followed the first + recycled sinks that received the address of a released sink of the other type + re-entrant formats + history cases with at least one refused formatting + long-format cases at least as long as the small thread stack; each counted once (only by the gcc-built memstream instances)'),
+           'too-few-argument cases in which an argument had already been consumed when FormatError was raised + ladder (form, N) pairs with N >= 64 + argument sequences in which an object recurs and its second occurrence is followed by something other than what followed the first + recycled sinks that received the address of a released sink of the other type + re-entrant formats + history cases with at least one refused formatting + long-format cases at least as long as the small thread stack + buffer-reuse sequences in which plain text is followed by a piece with conversions at the same address; each counted once (only by the gcc-built memstream instances)'),
   'bounds': {
     'quick': ('flags: all defined subsets; width {none,5}; precision {none,.3}; all length modifiers; Int values {0,-1,42,128,-129,32768,INT_MAX,INT_MIN} '
               '(+ {2^32, INT64_MAX, INT64_MIN} for l ll j z t); 11 Float values incl. +-0, +inf, denormal, 1e300; 6 Strings incl. empty and 40 chars; '
@@ -90,7 +93,9 @@ CHECK = {
          T('history', 'base', 'mode=history'),
          T('history-asan', 'asan', 'mode=history', 'count_nt=0'),
          T('longfmt', 'base', 'mode=longfmt', 'sizes=5'),
-         T('longfmt-asan', 'asan', 'mode=longfmt', 'sizes=5', 'count_nt=0')]
+         T('longfmt-asan', 'asan', 'mode=longfmt', 'sizes=5', 'count_nt=0'),
+         T('fmtreuse', 'base', 'mode=fmtreuse'),
+         T('fmtreuse-asan', 'asan', 'mode=fmtreuse', 'count_nt=0')]
       + grid_instances('small', 'asan', ['di', 'uoxX', 'fFeE', 'gGaA', 'csp$'], '-asan', ('count_nt=0',))
       + grid_instances('small', 'base', ['diuoxXcsp$', FLTS], '-tmpfile', ('file=tmpfile', 'count_nt=0'))
     ),
@@ -114,7 +119,9 @@ CHECK = {
          T('history', 'base', 'mode=history'),
          T('history-asan', 'asan', 'mode=history', 'count_nt=0'),
          T('longfmt', 'base', 'mode=longfmt', 'sizes=6'),
-         T('longfmt-asan', 'asan', 'mode=longfmt', 'sizes=6', 'count_nt=0')]
+         T('longfmt-asan', 'asan', 'mode=longfmt', 'sizes=6', 'count_nt=0'),
+         T('fmtreuse', 'base', 'mode=fmtreuse'),
+         T('fmtreuse-asan', 'asan', 'mode=fmtreuse', 'count_nt=0')]
       + grid_instances('full', 'asan', list(INTS) + list(FLTS) + ['csp$'], '-asan', ('count_nt=0',))
       + grid_instances('full', 'base', ['d', 'i', 'uo', 'xX', 'csp$', 'fF', 'eE', 'gG', 'aA'], '-tmpfile', ('file=tmpfile', 'count_nt=0'))
     ),
